@@ -827,4 +827,66 @@ func c20(r *core.Run) {
 			}
 		}
 	})
+
+	r.Check("D3/K6/word-boundaries", "the splitter starts a new word exactly at '_' (dropped) and before each of 'A'..'Z' (kept): evaluated concretely for the runes around both ends of the range", func(o *core.O) {
+		// role: the function of the format package that reads runes and appends words
+		n := 0
+		for _, f := range ext.Funcs(fmtRel) {
+			reads := core.Calls(f, core.CallMethod("strings.Reader", "ReadRune"))
+			if len(reads) != 1 {
+				continue
+			}
+			n++
+			r.Fn(core.FuncName(f))
+			rd := reads[0].(*ssa.Call)
+			isRune := func(v ssa.Value) bool { return core.IsResult(v, 0, core.Is(rd)) }
+			isFlush := core.CallMethod("bytes.Buffer", "Reset")
+			isKeep := core.CallMethod("bytes.Buffer", "WriteRune")
+			if len(core.Instrs(f, isFlush)) == 0 || len(core.Instrs(f, isKeep)) == 0 {
+				o.Unres("%s: word buffer operations (Reset/WriteRune) not found", core.FuncName(f))
+				continue
+			}
+			// paths on which ReadRune failed are not about a rune
+			_, errArm := core.EdgesOf(f, core.ErrNil(2, core.Is(rd)))
+			type want struct{ boundary, kept bool }
+			cases := map[rune]want{
+				'@': {false, true}, 'A': {true, true}, 'B': {true, true}, 'M': {true, true}, 'Y': {true, true}, 'Z': {true, true}, '[': {false, true},
+				'a': {false, true}, 'z': {false, true}, '0': {false, true}, '_': {true, false}, '-': {false, true},
+			}
+			for c, w := range cases {
+				cut := core.ConcreteCut(f, isRune, int64(c))
+				both := func(e core.Edge) bool {
+					if cut(e) {
+						return true
+					}
+					for _, x := range errArm {
+						if x == e {
+							return true
+						}
+					}
+					return false
+				}
+				next := core.Is(rd) // the next iteration
+				// boundary: the buffer is flushed before the rune is kept / before the next read
+				_, skipsFlush := core.Reach(core.Q{From: []core.At{core.After(rd)}, Target: core.Or(isKeep, next), Blocked: isFlush, Cut: both})
+				_, canFlush := core.Reach(core.Q{From: []core.At{core.After(rd)}, Target: isFlush, Blocked: core.Or(isKeep, next), Cut: both})
+				if w.boundary && skipsFlush {
+					o.Fail(p.Pos(f.Pos()), "%s: rune %q does not always start a new word", core.FuncName(f), c)
+				}
+				if !w.boundary && canFlush {
+					o.Fail(p.Pos(f.Pos()), "%s: rune %q starts a new word", core.FuncName(f), c)
+				}
+				_, keeps := core.Reach(core.Q{From: []core.At{core.After(rd)}, Target: isKeep, Blocked: next, Cut: both})
+				_, drops := core.Reach(core.Q{From: []core.At{core.After(rd)}, Target: next, Blocked: isKeep, Cut: both})
+				if w.kept && drops {
+					o.Fail(p.Pos(f.Pos()), "%s: rune %q can be dropped from the word", core.FuncName(f), c)
+				}
+				if !w.kept && keeps {
+					o.Fail(p.Pos(f.Pos()), "%s: separator %q is kept in a word", core.FuncName(f), c)
+				}
+			}
+		}
+		o.Site(n)
+	})
+
 }
